@@ -65,6 +65,9 @@ func c04(r *lp.Run) {
 		panic(err)
 	}
 	defer drv.Close()
+	if len(specs) > 0 && specs[0] == m {
+		c04Wrappers(r, drv, m)
+	}
 	for _, b := range specs {
 		names := make([]string, 0)
 		for name := range b.g.Env() {
@@ -232,4 +235,62 @@ func relaxProps(root *Schema, env Env, seen map[string]*Schema) Env {
 	}
 	out["$root"] = cp(root)
 	return out
+}
+
+// c04Wrappers ties the Lean wrapper model (OptNil.encode/decode/state) to the generated OptNilT codec:
+// every raw field combination (Set, Null, Value) of an optional nullable member is encoded inside its
+// struct and decoded again; member kind on the wire and the state after decoding must be the model's.
+func c04Wrappers(r *lp.Run, drv *gc.Driver, m *bodySpec) {
+	// the matrix operation with members on (optional nullable string), rn (required nullable integer)
+	var typeName string
+	for name, s := range m.g.Env() {
+		if len(s.Props) == 3 && s.Props[0].Name == "on" {
+			typeName = name
+		}
+	}
+	if typeName == "" {
+		return
+	}
+	for _, set := range []bool{false, true} {
+		for _, null := range []bool{false, true} {
+			for _, val := range []string{"", "x", "null"} {
+				desc := map[string]any{"On": map[string]any{"$raw": map[string]any{"Set": set, "Null": null, "Value": val}}, "Rn": json.Number("1")}
+				ans, _ := drv.Do(map[string]any{"pkg": m.pkg.Name, "cmd": "roundtrip", "type": typeName, "value": desc})
+				text, _ := ans["text"].(string)
+				member := "bad"
+				if obj, ok := parseJSON(text).(map[string]any); ok {
+					switch x := obj["on"].(type) {
+					case nil:
+						if _, present := obj["on"]; present {
+							member = "null"
+						} else {
+							member = "omitted"
+						}
+					case string:
+						member = "val:" + lp.Hex([]byte(x))
+					}
+				}
+				decoded := fmt.Sprint(ans["decoded"])
+				state := "bad"
+				switch {
+				case containsField(decoded, "On=absent"):
+					state = "omitted"
+				case containsField(decoded, "On=null"):
+					state = "null"
+				case containsField(decoded, "On=some("):
+					state = "val"
+				}
+				r.Case("optnil", fmt.Sprintf("%s %s %s", bs(set), bs(null), lp.Hex([]byte(val))), member+" "+state, "wrapper:"+state, true)
+			}
+		}
+	}
+}
+
+func containsField(canon, f string) bool {
+	for i := 0; i+len(f) <= len(canon); i++ {
+		if canon[i:i+len(f)] == f {
+			return true
+		}
+	}
+	return false
 }
